@@ -7,8 +7,10 @@ tie        : harness/extractors/c01.py -> coq/Gen/ConstsC01.v (EPS, Vector table
              implementation's outputs (forward, backward, backward_censored)
 oracle     : numeric round trips on the implementation (relative 1e-6 inside the
              conditioning region of the property), shapes/types through dutils.cast;
-             input class X (threshold exponents x extreme logarithms) and the stateful
-             mode (one object, many settings) are oracle-only
+             input class X (threshold exponents x extreme logarithms), the stateful
+             mode (one object, many settings) and the sessions (several live objects,
+             interleaved calls, reused array objects, stored representations of the
+             float64 input) are oracle-only
 """
 import math
 import os
@@ -140,6 +142,14 @@ def run(ctx):
                 "one object per class and constructor variant taken through a sequence of settings "
                 "(element assignment by attribute / key / key on .params, whole-vector assignment, "
                 "reset()) with round trips and comparison with a fresh object after each step; "
+                "sessions = several live objects per class (and of the Box-Cox family together), built "
+                "directly and by get_transform, operations interleaved (forward, backward on the array "
+                "forward returned, backward_censored, parameter change, object replaced, input / returned "
+                "array changed in place by its owner), float64 input arrays C-contiguous / strided / "
+                "negative stride / read-only / slice of a larger array / non-native byte order (Softmax: "
+                "C, Fortran, transposed, row- and column-sliced, flipped, read-only, byte-swapped, 1-D row): "
+                "no exception, argument unchanged, result = that of a new object with the intended values "
+                "on a new C-contiguous copy, round trips across the interleaving; "
                 "non-trivial = distinct "
                 "(class, method, parameter branch, sign of x, NaN/exception expected) signature")
     ctx.trusted = cm.STD_TRUST + [
@@ -156,6 +166,9 @@ def run(ctx):
         "independence of the results from the history of one object (parameters changed in place, by "
         "whole-vector assignment, reset()): tested (stateful mode), the model is a pure function of "
         "the stored values",
+        "independence of the results from other live transform objects, from earlier calls, from the "
+        "identity of the array objects passed and from the stored representation (strides, byte order, "
+        "writeability) of the float64 input: tested (sessions)",
         "Yeo-Johnson in the band 0 < w < 1e3*EPS above the forward/backward switch (exact "
         "invertibility is false there; DESIGN 5/C01 G)",
     ]
@@ -170,6 +183,10 @@ def run(ctx):
     from hydrodiy.stat import transform as T   # noqa: F401
     rng = ctx.rng
     check_tables(ctx)
+    # ---- sessions (own random stream; first, so that they run whatever happens to the tie)
+    t3 = time.time()
+    session_checks(ctx)
+    t_sess = time.time() - t3
 
     goals, meta = [], []          # meta[i]: replay description of goal i
     orc_fail = set()              # goal indices on which the oracle found a failure
@@ -394,9 +411,9 @@ def run(ctx):
     # ---- E3
     t1 = time.time()
     bad, nok, nshards, failed = tc.run_e3(PID, goals, shard=ctx.scale(40, 60))
-    ctx.notes["timing_s"] = {"prove": round(t_prove, 1), "generate+oracle": round(t1 - t0 - t_prove, 1),
+    ctx.notes["timing_s"] = {"prove": round(t_prove, 1), "generate+oracle": round(t1 - t0 - t_prove - t_sess, 1),
                              "e3": round(time.time() - t1, 1),
-                             "classX+stateful": round(t_extra, 1)}
+                             "classX+stateful": round(t_extra, 1), "sessions": round(t_sess, 1)}
     ctx.notes["correspondence_goals"] = len(goals)
     ctx.notes["correspondence_mismatches"] = len(bad)
     ctx.notes["e3_shards"] = nshards
@@ -623,3 +640,710 @@ def shape_checks(ctx):
             ctx.failure(f"C01/{name}/cast-raises", dict(rep, exception=repr(e)),
                         f"{name}: forward/backward of a 2-D float64 array or a float raised {type(e).__name__}")
         ctx.count((name, "cast"))
+
+
+# ----------------------------------------------------------------------------
+# sessions (oracle only): STATE, IDENTITY and STORED REPRESENTATION.
+#
+# The property quantifies over every transform object holding an admissible setting and
+# every float64 array of its domain; it does not care how the object came to hold the
+# setting, which other transform objects exist, which calls were made before, nor how the
+# float64 array is laid out in memory.  A session keeps SEVERAL transform objects alive at
+# once (same class, same constructor options - built directly and by get_transform - and,
+# for the Box-Cox family, the classes that delegate to an inner BoxCox2), each with its own
+# setting and its own input array OBJECT, and interleaves on them: forward / backward /
+# backward_censored (backward receives the very object forward returned, or its values in
+# another representation), a parameter change (the six styles of the stateful mode), the
+# replacement of an object by a new one, an in-place change of the contents of an input
+# array by its owner, an in-place change of a returned array by its owner.
+# Input arrays are float64 in one of the stored representations of REPRS (C-contiguous,
+# strided view, negative stride, read-only view, slice of a larger array, non-native byte
+# order); Softmax matrices in those of REPRS2.
+# Oracle after every call, for the object's intended setting W (what was read back right
+# after the setting was made) and the CURRENT contents v of the array passed:
+#   * the call does not raise and does not modify the array it was given;
+#   * the result equals that of a newly built object set to W on a new C-contiguous native
+#     float64 copy of v (bit-identical, or within twice the a priori forward-error bound
+#     of the float algorithm: SIMD and strided loops of numpy may differ in the last bits);
+#   * backward(forward(x)) = x and forward(backward(y)) = y (relative 1e-6, same error
+#     measures as the main loop), whatever happened between the two calls.
+# Nothing is asserted about the type / byte order / layout of the result, nor about
+# whether the result shares memory with the input.
+
+NPT = 4
+REPRS = ("contiguous", "strided", "reversed", "readonly", "offset", "byteswapped")
+REPRS2 = ("C", "F", "transposed", "rows-sliced", "cols-sliced", "flipped", "readonly", "byteswapped")
+_SWAPPED = np.dtype(np.float64).newbyteorder()
+
+
+class Buf:
+    """a float64 array holding `values` in a stored representation; `base` is the
+    owner's writable handle on the same memory (in-place changes by the owner)"""
+
+    def __init__(self, values, kind):
+        v = np.array(values, dtype=np.float64)
+        self.kind = kind
+        if v.ndim == 1:
+            n = v.shape[0]
+            if kind == "contiguous":
+                self.base = self.arr = v
+            elif kind == "strided":                 # every third element of a larger array
+                big = np.full(3 * n + 2, -7.5e300)
+                self.base = self.arr = big[1:1 + 3 * n:3]
+                self.base[:] = v
+            elif kind == "reversed":                # negative stride
+                self.base = self.arr = v[::-1].copy()[::-1]
+            elif kind == "readonly":                # read-only view (what pandas .values gives)
+                self.base = v
+                self.arr = v.view()
+                self.arr.setflags(write=False)
+            elif kind == "offset":                  # slice of a larger contiguous array
+                big = np.full(n + 5, 3.25e200)
+                self.base = self.arr = big[3:3 + n]
+                self.base[:] = v
+            elif kind == "byteswapped":             # float64, non-native byte order
+                self.base = self.arr = v.astype(_SWAPPED)
+            else:
+                raise KeyError(kind)
+        else:
+            r, c = v.shape
+            if kind == "C":
+                self.base = self.arr = v
+            elif kind == "F":
+                self.base = self.arr = np.asfortranarray(v)
+            elif kind == "transposed":
+                self.base = self.arr = v.T.copy().T
+            elif kind == "rows-sliced":
+                big = np.full((2 * r + 1, c), 0.75)
+                self.base = self.arr = big[1:1 + 2 * r:2]
+                self.base[...] = v
+            elif kind == "cols-sliced":
+                big = np.full((r, 2 * c + 1), 0.75)
+                self.base = self.arr = big[:, 1:1 + 2 * c:2]
+                self.base[...] = v
+            elif kind == "flipped":
+                self.base = self.arr = v[::-1, ::-1].copy()[::-1, ::-1]
+            elif kind == "readonly":
+                self.base = v
+                self.arr = v.view()
+                self.arr.setflags(write=False)
+            elif kind == "byteswapped":
+                self.base = self.arr = v.astype(_SWAPPED)
+            else:
+                raise KeyError(kind)
+
+    def values(self):
+        return np.array(self.arr, dtype=np.float64).tolist()
+
+    def poke(self, values):
+        self.base[...] = np.array(values, dtype=np.float64)
+
+    def describe(self):
+        a = self.arr
+        return {"representation": self.kind, "dtype": a.dtype.str, "shape": list(a.shape),
+                "strides": list(a.strides), "writeable": bool(a.flags.writeable),
+                "values": self.values()}
+
+
+def _flat(out):
+    """values of a result as Python floats (C order of the logical array)"""
+    return [float(v) for v in np.array(out, dtype=np.float64).ravel()]
+
+
+def _content(a):
+    """bytes of the logical contents (C order), to detect a modification"""
+    return np.asarray(a).tobytes()
+
+
+def in_region(name, opts, vals, x):
+    """x lies in the domain and in the conditioning region in which transform_common.points
+    draws its points for the setting `vals` (same acceptance tests, same ranges)"""
+    try:
+        if not math.isfinite(x):
+            return False
+        if name == "Identity":
+            return abs(x) <= 1e5
+        if name == "Logit":
+            d = math.exp(vals["logdelta"])
+            vv = (x - vals["lower"]) / d
+            return 1e-4 <= vv <= 1 - 1e-4 and abs(vals["lower"]) <= 1e6 * d
+        if name in ("Log", "BoxCox2", "BoxCox1lam", "BoxCox1nu"):
+            L = tc._lnz_limit(vals.get("lam", 0.0))
+            zz = x + vals["nu"]
+            return zz > 0 and abs(math.log(zz)) <= L and max(abs(x), abs(vals["nu"])) <= 1e6 * zz
+        if name == "BoxCox2sym":
+            L = tc._lnz_limit(vals["lam"])
+            zz = abs(x) + vals["nu"]
+            return zz > 0 and abs(math.log(zz)) <= L and abs(math.log(vals["nu"])) <= L
+        if name == "YeoJohnson":
+            ww = vals["nu"] + x * vals["scale"]
+            L = tc._lnz_limit(vals["lam"] if ww >= tc.eps() else 2 - vals["lam"])
+            if abs(math.log1p(abs(ww))) > L or 0 < ww < 1e3 * tc.eps():
+                return False
+            if ww != 0 and abs(ww) < 1e-9:
+                return False
+            return max(abs(vals["nu"]), abs(x * vals["scale"])) <= 1e6 * max(abs(ww), 1e-3)
+        if name == "LogSinh":
+            a, b = math.exp(vals["loga"]), math.exp(vals["logb"])
+            xn = x / vals["xmax"]
+            ww = a + b * xn
+            return 1e-4 <= ww <= 30 and max(a, abs(b * xn)) <= 1e6 * ww
+        if name == "Reciprocal":
+            zz = vals["nu"] + x
+            return 1e-6 <= zz <= 1e6 and max(abs(x), abs(vals["nu"])) <= 1e6 * zz
+        if name == "Sinh":
+            uu = (x - vals["nu"]) * vals["scale"]
+            if not (uu == 0 or 1e-6 <= abs(uu) <= 1e6):
+                return False
+            return max(abs(x), abs(vals["nu"])) * vals["scale"] <= 1e6 * max(abs(uu), 1e-3)
+        if name == "Manly":
+            u = x / vals["xmax"]
+            lam = vals["lam"]
+            lim = min(1e3, tc.LNMAX / abs(lam)) if lam != 0 else 1e3
+            return (u == 0 or 1e-6 <= abs(u) <= lim) and abs(lam * u) <= tc.LNMAX
+    except (ValueError, OverflowError, ZeroDivisionError):
+        return False
+    raise KeyError(name)
+
+
+def live_bounds(name, opts):
+    """{name: (role, default, min, max)} read from a live object"""
+    from hydrodiy.stat import transform as T
+    t = getattr(T, name)(**opts)
+    out = {}
+    for role, vec in (("params", t.params), ("constants", t.constants)):
+        for i, n in enumerate(vec.names):
+            out[str(n)] = (role, float(vec.defaults[i]), float(vec.mins[i]), float(vec.maxs[i]))
+    return out
+
+
+def _same_bounds(a, b):
+    if a is None or set(a) != set(b):
+        return False
+    for n in a:
+        if a[n][0] != b[n][0]:
+            return False
+        for u, v in zip(a[n][1:], b[n][1:]):
+            if not (u == v or (math.isnan(u) and math.isnan(v))):
+                return False
+    return True
+
+
+class _SessionBounds:
+    """the generators of transform_common read the bounds from the tables extracted from the
+    source.  Where these differ from the live objects (reported by check_tables as a broken
+    tie, without an input) the sessions use the live bounds, so that they still run and can
+    show a concrete input."""
+
+    def __init__(self, ctx, members):
+        self.ctx, self.members, self.live = ctx, members, {}
+
+    def __enter__(self):
+        for name, opts in self.members:
+            try:
+                ext = tc.bounds(name, opts)
+            except Exception:      # noqa: BLE001
+                ext = None
+            lb = live_bounds(name, opts)
+            if not _same_bounds(ext, lb):
+                self.live[(name, tuple(sorted(opts.items())))] = lb
+        self.orig = tc.bounds
+        if self.live:
+            self.ctx.notes["sessions_on_live_bounds"] = sorted({k[0] for k in self.live} |
+                                                              set(self.ctx.notes.get("sessions_on_live_bounds", [])))
+            orig, live = self.orig, self.live
+
+            def bounds(name, opts):
+                k = (name, tuple(sorted(opts.items())))
+                return live[k] if k in live else orig(name, opts)
+            tc.bounds = bounds
+        return self
+
+    def __exit__(self, *exc):
+        tc.bounds = self.orig
+        return False
+
+
+class Actor:
+    """one live transform object of a session with its intended setting, its input
+    array and the arrays the calls returned"""
+
+    def __init__(self, idx, name, opts, vecs):
+        self.idx, self.name, self.opts, self.vecs = idx, name, dict(opts), vecs
+        self.t = self.want = self.buf = self.how = None
+        self.Y = self.Yvals = self.Yx = self.B = None
+
+    def describe(self):
+        return {"object": self.idx, "class": self.name, "opts": self.opts, "built": self.how,
+                "values": self.want, "input": None if self.buf is None else self.buf.describe()}
+
+
+class Session:
+    def __init__(self, ctx, rng, label, members):
+        self.ctx, self.rng, self.label = ctx, rng, label
+        self.history = []
+        self.actors = []
+        for i, (name, opts) in enumerate(members):
+            nspecial = {"BoxCox2": 23, "BoxCox1lam": 23, "BoxCox1nu": 23, "BoxCox2sym": 23,
+                        "YeoJohnson": 27, "Manly": 17}.get(name, 8)
+            vecs = tc.param_vectors(name, opts, rng, nspecial + 6)
+            self.actors.append(Actor(i, name, opts, vecs))
+
+    # -- reporting
+    def fail(self, a, what, text, **rep):
+        base = {"input_class": "session: several live objects, calls interleaved, array objects "
+                               "reused, stored representations", "session": self.label,
+                "objects": [b.describe() for b in self.actors if b.t is not None],
+                "history (last 40 operations)": self.history[-40:], "object": a.idx}
+        plain = what in ("roundtrip-backward-forward", "roundtrip-forward-backward")
+        key = f"C01/{a.name}/{what}" if plain else f"C01/{a.name}/session-{what}"
+        self.ctx.failure(key, dict(base, **rep),
+                         f"{a.name}{a.opts} holding {a.want} (object {a.idx} of session '{self.label}', "
+                         f"{len(self.history)} operations; input array: "
+                         f"{a.buf.kind if a.buf is not None else None}): {text}")
+
+    def log(self, a, op, **kw):
+        self.history.append(dict({"op": op, "object": a.idx}, **kw))
+
+    # -- reference: a new object holding W, on new C-contiguous native arrays
+    def reference(self, a):
+        t, eff = tc.make(a.name, a.opts, a.want)
+        return t if eff == a.want else None
+
+    def close(self, a, method, arg, got, ref, scale, factor=2.0):
+        if _same(got, ref, scale):
+            return True
+        if got is None or ref is None or not (math.isfinite(got) and math.isfinite(ref)):
+            return False
+        tol = tc.tolerance(a.name, method, a.opts, a.want, arg, ref)
+        return tol is not None and abs(got - ref) <= factor * tol
+
+    # -- building blocks
+    def usable(self, a):
+        return a.t is not None and a.want is not None and a.buf is not None and \
+            not any(math.isnan(v) for v in a.want.values())
+
+    def fill(self, a, keep=False):
+        """give the object's owner in-domain points for the current setting: kept (array
+        untouched) when `keep` and all current values are still inside the region, written
+        IN PLACE into the same array object when the number of points allows, else a new array"""
+        if any(math.isnan(v) for v in a.want.values()):
+            a.buf = None
+            return "none"
+        if keep and a.buf is not None and all(in_region(a.name, a.opts, a.want, x) for x in a.buf.values()):
+            return "kept"
+        xs = tc.points(a.name, a.opts, a.want, self.rng, NPT)
+        if a.name == "BoxCox2sym" and xs and self.rng.random() < 0.5:      # |x| of the order of nu, both signs
+            L = tc._lnz_limit(a.want["lam"])
+            c = self.rng.choice([0.01, 0.5, 2.0])
+            if abs(math.log((c + 1) * a.want["nu"])) <= L:
+                xs[-1] = self.rng.choice([1, -1]) * c * a.want["nu"]
+        if not xs:
+            a.buf = None
+            return "none"
+        if a.buf is not None and len(a.buf.values()) == len(xs) and self.rng.random() < 0.8:
+            a.buf.poke(xs)
+            return "in-place"
+        a.buf = Buf(xs, self.rng.choice(REPRS))
+        return "new-array"
+
+    def build(self, a):
+        """(re)place the object by a newly built one with a setting of the pool"""
+        rng = self.rng
+        for _ in range(6):
+            vals = dict(rng.choice(a.vecs))
+            a.how = rng.choice(["constructor", "get_transform"])
+            a.t, a.want = tc.make(a.name, a.opts, vals, via_get=a.how == "get_transform")
+            a.Y = a.Yvals = a.Yx = a.B = None
+            a.buf = None
+            if self.fill(a) != "none":
+                break
+        self.log(a, "build", how=a.how, values=a.want)
+
+    def op_set(self, a):
+        names = tc.value_names(a.t)
+        if not names:
+            return
+        rng = self.rng
+        style = rng.choice(tc.STYLES)
+        target = dict(rng.choice(a.vecs))
+        if style not in ("reset", "values") and len(target) > 1 and rng.random() < 0.6:
+            k = sorted(target)[rng.randrange(len(target))]
+            target = {k: target[k]}
+        if style == "reset":
+            target = {}
+        try:
+            tc.apply_step(a.t, style, target)
+        except Exception as e:      # noqa: BLE001
+            self.log(a, "set", style=style, changes=target)
+            self.fail(a, "set-raises", f"{style} {target} raised {type(e).__name__}", exception=repr(e))
+            self.build(a)
+            return
+        a.want = tc.stored_values(a.t)
+        a.Y = a.Yvals = a.Yx = a.B = None
+        how = self.fill(a, keep=True)
+        self.log(a, "set", style=style, changes=target, values=a.want, input=how)
+        self.ctx.count((a.name, "session", "set", how))
+
+    def op_forward(self, a, again=False):
+        if not self.usable(a):
+            return False
+        ctx = self.ctx
+        snap = a.buf.values()
+        before = _content(a.buf.arr)
+        self.log(a, "forward", input=a.buf.kind, x=snap)
+        try:
+            with np.errstate(all="ignore"):
+                out = a.t.forward(a.buf.arr)
+            ovals = _flat(out)
+        except Exception as e:      # noqa: BLE001
+            ref = self.reference(a)
+            r, rerr = tc.call(ref, "fwd", snap) if ref is not None else (None, None)
+            if r is not None or ref is None:
+                self.fail(a, "forward-raises", f"forward of the {a.buf.kind} float64 array {snap!r} raised "
+                          f"{type(e).__name__}; a new object on a new C-contiguous copy does not",
+                          method="forward", x=snap, array=a.buf.describe(), exception=repr(e))
+            else:
+                self.fail(a, "forward-raises-in-domain", f"forward({snap!r}) raised {type(e).__name__} inside "
+                          f"the domain", method="forward", x=snap, exception=repr(e))
+            a.Y = a.Yvals = a.Yx = None
+            return False
+        if _content(a.buf.arr) != before:
+            self.fail(a, "forward-modifies-its-input", f"forward changed the array it was given: {snap!r} "
+                      f"-> {a.buf.values()!r}", method="forward", x=snap, array_after=a.buf.values())
+            a.buf.poke(snap)
+        ref = self.reference(a)
+        if ref is not None:
+            r, rerr = tc.call(ref, "fwd", snap)
+            if r is None or len(r) != len(ovals):
+                if r is not None:
+                    self.fail(a, "forward-differs", f"forward({snap!r}) has {len(ovals)} values",
+                              method="forward", x=snap, output=ovals, reference_output=r)
+            else:
+                for x, got, want in zip(snap, ovals, r):
+                    sc = y_scale(a.name, a.opts, a.want, want) if math.isfinite(want) else 1.0
+                    if not self.close(a, "fwd", x, got, want, sc):
+                        self.fail(a, "forward-differs",
+                                  f"forward of the {a.buf.kind} float64 array {snap!r} = {ovals!r}; a new object "
+                                  f"with the same values on a new C-contiguous copy gives {r!r}",
+                                  method="forward", x=snap, array=a.buf.describe(), output=ovals,
+                                  reference_output=r)
+                        break
+        a.Y, a.Yvals, a.Yx = out, ovals, snap
+        ctx.count((a.name, "session", "forward", a.buf.kind, again), n=len(snap))
+        return True
+
+    def _y_argument(self, a):
+        """the array handed to backward: the very object forward returned, or its values
+        in another stored representation"""
+        if isinstance(a.Y, np.ndarray) and self.rng.random() < 0.6:
+            return a.Y, "as-returned"
+        kind = self.rng.choice(REPRS)
+        return Buf(a.Yvals, kind).arr, kind
+
+    def op_backward(self, a):
+        if not self.usable(a):
+            return
+        if a.Y is None and not self.op_forward(a):
+            return
+        if a.Yvals is None or not all(math.isfinite(y) for y in a.Yvals):
+            return
+        ctx = self.ctx
+        yin, ykind = self._y_argument(a)
+        before = _content(yin)
+        ys, xs0 = list(a.Yvals), list(a.Yx)
+        self.log(a, "backward", input=ykind, y=ys)
+        try:
+            with np.errstate(all="ignore"):
+                out = a.t.backward(yin)
+            bvals = _flat(out)
+        except Exception as e:      # noqa: BLE001
+            self.fail(a, "backward-raises", f"backward of the ({ykind}) float64 array {ys!r} = forward({xs0!r}) "
+                      f"raised {type(e).__name__}", method="backward", y=ys, x=xs0, exception=repr(e))
+            return
+        if _content(yin) != before:
+            self.fail(a, "backward-modifies-its-input", f"backward changed the array it was given: {ys!r} -> "
+                      f"{_flat(yin)!r}", method="backward", y=ys, array_after=_flat(yin))
+            a.Y = a.Yvals = a.Yx = None
+        ref = self.reference(a)
+        if ref is None or len(bvals) != len(ys):
+            if ref is not None:
+                self.fail(a, "backward-differs", f"backward({ys!r}) has {len(bvals)} values", method="backward",
+                          y=ys, output=bvals)
+            return
+        r, rerr = tc.call(ref, "bwd", ys)
+        if r is not None:
+            for y, got, want in zip(ys, bvals, r):
+                sc = x_scale(a.name, a.opts, a.want, want) if math.isfinite(want) else 1.0
+                if not self.close(a, "bwd", y, got, want, sc):
+                    self.fail(a, "backward-differs",
+                              f"backward of the ({ykind}) float64 array {ys!r} = {bvals!r}; a new object with the "
+                              f"same values on a new C-contiguous copy gives {r!r}", method="backward", y=ys,
+                              output=bvals, reference_output=r)
+                    break
+        a.B = out
+        ctx.count((a.name, "session", "backward", ykind), n=len(ys))
+        if not in_accuracy_region(a.name, a.want):
+            return
+        # round trips, whatever happened since forward was called
+        rtol = rt_rtol(a.name, a.want)
+        bad = [(x, b) for x, b in zip(xs0, bvals)
+               if not abs(b - x) <= rtol * x_scale(a.name, a.opts, a.want, x)]
+        if bad:
+            stateless = True
+            if r is not None:
+                stateless = any(not abs(b - x) <= rtol * x_scale(a.name, a.opts, a.want, x)
+                                for x, b in zip(xs0, r))
+                f0, _ = tc.call(ref, "fwd", xs0)
+                stateless = stateless and f0 is not None and all(_same(u, v, 1.0) for u, v in zip(f0, ys))
+            x, b = bad[0]
+            self.fail(a, "roundtrip-backward-forward" if stateless else "roundtrip-backward-forward-broken",
+                      f"backward(forward({x!r})) = {b!r}", method="backward", x=x, y=ys, output=b)
+        if all(math.isfinite(b) for b in bvals) and isinstance(out, np.ndarray):
+            try:
+                with np.errstate(all="ignore"):
+                    y2 = _flat(a.t.forward(out))      # the object backward returned, passed on as it is
+            except Exception as e:      # noqa: BLE001
+                self.fail(a, "forward-of-backward-raises", f"forward(backward({ys!r})) raised {type(e).__name__}",
+                          method="forward(backward(y))", y=ys, x=bvals, exception=repr(e))
+                return
+            self.log(a, "forward", input="as-returned-by-backward", x=bvals)
+            for y, v in zip(ys, y2):
+                if not abs(v - y) <= rtol * y_scale(a.name, a.opts, a.want, y):
+                    f2, _ = tc.call(ref, "fwd", bvals)
+                    stateless = f2 is not None and any(
+                        not abs(v2 - y_) <= rtol * y_scale(a.name, a.opts, a.want, y_) for y_, v2 in zip(ys, f2))
+                    self.fail(a, "roundtrip-forward-backward" if stateless else "roundtrip-forward-backward-broken",
+                              f"forward(backward({y!r})) = {v!r}", method="forward(backward(y))", y=y, x=bvals,
+                              output=v)
+                    break
+            ctx.count((a.name, "session", "forward-of-backward"), n=len(ys))
+
+    def op_censored(self, a):
+        if a.name in ("YeoJohnson", "Softmax") or not self.usable(a):      # (cast glue of a scalar: see notes)
+            return
+        if a.Y is None and not self.op_forward(a):
+            return
+        if a.Yvals is None or not all(math.isfinite(y) for y in a.Yvals):
+            return
+        ys, xs0 = list(a.Yvals), list(a.Yx)
+        censor = xs0[self.rng.randrange(len(xs0))]
+        yin, ykind = self._y_argument(a)
+        before = _content(yin)
+        self.log(a, "backward_censored", input=ykind, y=ys, censor=censor)
+        try:
+            with np.errstate(all="ignore"):
+                cvals = _flat(a.t.backward_censored(yin, censor))
+        except Exception as e:      # noqa: BLE001
+            self.fail(a, "backward_censored-raises", f"backward_censored({ys!r}, {censor!r}) raised "
+                      f"{type(e).__name__}", method="backward_censored", y=ys, censor=censor, exception=repr(e))
+            return
+        if _content(yin) != before:
+            self.fail(a, "backward_censored-modifies-its-input", f"backward_censored changed the array it was "
+                      f"given: {ys!r} -> {_flat(yin)!r}", method="backward_censored", y=ys, censor=censor)
+            a.Y = a.Yvals = a.Yx = None
+        ref = self.reference(a)
+        if ref is None:
+            return
+        try:
+            with np.errstate(all="ignore"):
+                r = _flat(ref.backward_censored(np.array(ys, dtype=np.float64), censor))
+                tcen = float(ref.forward(censor))
+        except Exception:      # noqa: BLE001
+            return
+        if len(r) != len(cvals) or not math.isfinite(tcen):
+            return
+        rtol = rt_rtol(a.name, a.want)
+        for y, got, want in zip(ys, cvals, r):
+            if _same(got, want, x_scale(a.name, a.opts, a.want, want) if math.isfinite(want) else 1.0):
+                continue
+            ok = False
+            if math.isfinite(got) and math.isfinite(want):
+                tb = tc.tolerance(a.name, "bwd", a.opts, a.want, max(y, tcen), want)
+                if tb is None:
+                    continue
+                tol = 4 * tb + 1e-9 * max(1.0, abs(want))
+                if y <= tcen + 1e-6 * max(1.0, abs(tcen)):
+                    tol += 2 * rtol * x_scale(a.name, a.opts, a.want, censor)
+                ok = abs(got - want) <= tol
+            if not ok:
+                self.fail(a, "backward_censored-differs",
+                          f"backward_censored of the ({ykind}) array {ys!r}, censor {censor!r} = {cvals!r}; a new "
+                          f"object with the same values on a new C-contiguous copy gives {r!r}",
+                          method="backward_censored", y=ys, censor=censor, output=cvals, reference_output=r)
+                break
+        self.ctx.count((a.name, "session", "censored", ykind), n=len(ys))
+
+    def op_poke_input(self, a):
+        """the owner of the input array changes its contents in place"""
+        if not self.usable(a):
+            return
+        xs = tc.points(a.name, a.opts, a.want, self.rng, len(a.buf.values()))
+        if len(xs) != len(a.buf.values()):
+            return
+        a.buf.poke(xs)
+        self.log(a, "input array changed in place by its owner", x=xs)
+
+    def op_poke_output(self, a):
+        """the owner of a returned array changes it in place (and forgets it)"""
+        done = []
+        for attr in ("Y", "B"):
+            arr = getattr(a, attr)
+            # (nothing is asserted about a result sharing memory with the input: such an array is left alone)
+            if isinstance(arr, np.ndarray) and arr.ndim == 1 and arr.flags.writeable and arr.size \
+                    and not (a.buf is not None and np.shares_memory(arr, a.buf.base)):
+                arr[...] = np.array(arr[::-1], dtype=np.float64) * -1.25 + 3.0
+                done.append(attr)
+        if done:
+            self.log(a, "returned array changed in place by its owner", which=done)
+        a.Y = a.Yvals = a.Yx = a.B = None
+
+    def run(self, nops):
+        rng = self.rng
+        for a in self.actors:
+            self.build(a)
+        ops = (["forward"] * 5 + ["backward"] * 6 + ["set"] * 4 + ["poke-input"] * 2 + ["poke-output"] * 2 +
+               ["build"] * 2 + ["censored"] * 2 + ["forward-twice"])
+        for _ in range(nops):
+            a = rng.choice(self.actors)
+            op = rng.choice(ops)
+            cm.mark({"call": "transform (session)", "session": self.label, "object": a.describe(), "op": op})
+            if op == "forward":
+                self.op_forward(a)
+            elif op == "forward-twice":
+                self.op_forward(a) and self.op_forward(a, again=True)
+            elif op == "backward":
+                self.op_backward(a)
+            elif op == "censored":
+                self.op_censored(a)
+            elif op == "set":
+                self.op_set(a)
+            elif op == "build":
+                self.build(a)
+            elif op == "poke-input":
+                self.op_poke_input(a)
+            else:
+                self.op_poke_output(a)
+        for a in self.actors:          # every object once more, in turn
+            self.op_forward(a)
+        for a in self.actors:
+            self.op_backward(a)
+
+
+def softmax_session(ctx, rng, nmat):
+    from hydrodiy.stat import transform as T
+    objs = [T.Softmax(), T.get_transform("Softmax"), T.Softmax()]
+    history = []
+
+    def fail(what, text, **rep):
+        ctx.failure(f"C01/Softmax/session-{what}",
+                    dict({"input_class": "session: Softmax objects reused, array objects reused, stored "
+                                         "representations", "history (last 20 operations)": history[-20:]}, **rep),
+                    f"Softmax: {text}")
+
+    buf = None
+    for k in range(nmat):
+        sm = objs[k % len(objs)]
+        nrows, ncols = rng.choice([1, 2, 3, 4]), rng.choice([1, 2, 3, 5])
+        rows = tc.softmax_rows(rng, nrows, ncols)
+        one_d = nrows == 1 and rng.random() < 0.5
+        if buf is not None and not one_d and list(buf.arr.shape) == [nrows, ncols] or \
+                (buf is not None and one_d and list(buf.arr.shape) == [ncols]):
+            buf.poke(rows[0] if one_d else rows)       # same array object, new contents
+            how = "in-place"
+        else:
+            buf = Buf(rows[0], rng.choice(REPRS)) if one_d else Buf(rows, rng.choice(REPRS2))
+            how = "new-array"
+        cm.mark({"call": "Softmax (session)", "array": buf.describe()})
+        history.append({"op": "forward", "array": buf.describe(), "filled": how})
+        flat = [v for r in rows for v in r]
+        before = _content(buf.arr)
+        try:
+            with np.errstate(all="ignore"):
+                out = sm.forward(buf.arr)
+            ovals = _flat(out)
+        except Exception as e:      # noqa: BLE001
+            fail("forward-raises", f"forward of the {buf.kind} float64 array {rows!r} raised {type(e).__name__} "
+                 f"(rows positive, sums below 1)", rows=rows, array=buf.describe(), exception=repr(e))
+            continue
+        if _content(buf.arr) != before:
+            fail("forward-modifies-its-input", f"forward changed the array it was given: {rows!r} -> "
+                 f"{buf.values()!r}", rows=rows, array_after=buf.values())
+            buf.poke(rows[0] if one_d else rows)
+        r, rerr = tc.call(T.Softmax(), "fwd", rows)
+        ok = r is not None and len(r) == len(ovals)
+        if ok:
+            tols = []
+            for row in rows:
+                sx = sum(row)
+                for v in row:
+                    yv = math.log(v / (1 - sx))
+                    tols.append(1e-10 * max(1.0, abs(yv)) + 16 * tc.U * (len(row) / (1 - sx) + abs(yv) + 2))
+            ok = all(a == b or abs(a - b) <= 2 * tl for a, b, tl in zip(ovals, r, tols))
+        if not ok and r is not None:
+            fail("forward-differs", f"forward of the {buf.kind} float64 array {rows!r} = {ovals!r}; a new object on a "
+                 f"new C-contiguous copy gives {r!r}", rows=rows, array=buf.describe(), output=ovals,
+                 reference_output=r)
+        ctx.count(("Softmax", "session", "forward", buf.kind, one_d, how), n=len(flat))
+        if not all(math.isfinite(v) for v in ovals) or len(ovals) != len(flat):
+            continue
+        # backward: the object forward returned, or its values in another representation
+        yrows = [ovals[i * ncols:(i + 1) * ncols] for i in range(nrows)]
+        if isinstance(out, np.ndarray) and rng.random() < 0.5:
+            yin, ykind = out, "as-returned"
+        else:
+            ykind = rng.choice(REPRS2)
+            yin = Buf(yrows, ykind).arr
+        history.append({"op": "backward", "input": ykind, "rows": yrows})
+        before = _content(yin)
+        try:
+            with np.errstate(all="ignore"):
+                bvals = _flat(sm.backward(yin))
+        except Exception as e:      # noqa: BLE001
+            fail("backward-raises", f"backward of the ({ykind}) array {yrows!r} raised {type(e).__name__}",
+                 rows=yrows, exception=repr(e))
+            continue
+        if _content(yin) != before:
+            fail("backward-modifies-its-input", f"backward changed the array it was given: {yrows!r} -> "
+                 f"{_flat(yin)!r}", rows=yrows)
+        rb, _ = tc.call(T.Softmax(), "bwd", yrows)
+        if rb is not None:
+            btol = [1e-10 + 16 * tc.U * (2 + abs(y)) * max(b, 1e-300) * (ncols + 2) for y, b in zip(ovals, rb)]
+            if len(rb) != len(bvals) or not all(a == b or abs(a - b) <= 2 * tl for a, b, tl in zip(bvals, rb, btol)):
+                fail("backward-differs", f"backward of the ({ykind}) array {yrows!r} = {bvals!r}; a new object on a "
+                     f"new C-contiguous copy gives {rb!r}", rows=yrows, output=bvals, reference_output=rb)
+        if len(bvals) == len(flat):
+            for v, b in zip(flat, bvals):
+                if not abs(b - v) <= 1e-6 * abs(v):
+                    stateless = rb is not None and any(not abs(b2 - v2) <= 1e-6 * abs(v2) for v2, b2 in zip(flat, rb))
+                    ctx.failure("C01/Softmax/roundtrip-backward-forward" if stateless else
+                                "C01/Softmax/session-roundtrip-backward-forward-broken",
+                                {"rows": rows, "array": buf.describe(), "forward": yrows, "backward_input": ykind,
+                                 "output": bvals, "history": history[-20:]},
+                                f"Softmax ({buf.kind} array): backward(forward(x)) entry {b!r} != {v!r}")
+                    break
+        ctx.count(("Softmax", "session", "backward", ykind), n=len(flat))
+
+
+def session_checks(ctx):
+    import random
+    rng = random.Random(f"{PID}:sessions:{ctx.seed}")
+    nops = ctx.scale(40, 200)
+    nobj = 0
+    plans = []
+    for name in tc.CLASSES:
+        if name == "Softmax":
+            continue
+        variants = tc.ctor_variants(name, rng)
+        other = variants[rng.randrange(len(variants))]
+        plans.append((name, [(name, variants[0]), (name, variants[0]), (name, other)]))
+    fam = ("BoxCox2", "BoxCox1lam", "BoxCox1nu", "BoxCox2sym")
+    famv = tc.ctor_variants("BoxCox2", rng)
+    plans.append(("Box-Cox family", [(n, {}) for n in fam] + [(n, famv[rng.randrange(len(famv))]) for n in fam]))
+    for label, members in plans:
+        with _SessionBounds(ctx, members):
+            s = Session(ctx, rng, label, members)
+            s.run(nops if len(members) <= 3 else 2 * nops)
+        nobj += len(members)
+    softmax_session(ctx, rng, ctx.scale(40, 200))
+    ctx.notes["session_objects"] = nobj
